@@ -107,6 +107,137 @@ def _follow_delegation(c, f):
     return norm_.prepare(raw, c, force=tuple(sib))
 
 
+def symbol_builders(ctx, c, rule):
+    """bv_symbol / array_symbol / symbol / Expr::symbol: the symbol node carries the name and the widths it was asked for, index and data width
+    in their own fields (directly, or through Type / ArrayType values whose fields are matched by name)"""
+    from . import norm as norm_
+    NODES = "patronus::expr::nodes::"
+
+    def pidx_of(f):
+        out, k = {}, 0
+        for p in f["params"]:
+            b = binding_of(p)
+            if b and b[0] != "self":
+                out[b[1]] = k
+                k += 1
+        return out
+
+    def src(e, pidx, defs, binds, depth=0):
+        """("param", k) | ("named", k) for string(param k) | ("bound", field name) for a pattern binding of that field | ("?", text)"""
+        e = peel(e)
+        if e.get("k") == "local":
+            if e["id"] in pidx:
+                return ("param", pidx[e["id"]])
+            if e["id"] in binds:
+                return binds[e["id"]]
+            init = simple_let_init(defs, e["id"])
+            if init is not None and depth < 4:
+                return src(init, pidx, defs, binds, depth + 1)
+        if e.get("k") == "mcall" and callee(e) == CTX + "::string" and len(e["args"]) == 1:
+            b_, ms_ = chain(e["args"][0])
+            if peel(b_).get("k") == "local" and peel(b_)["id"] in pidx and [m[0] for m in ms_] in ([], ["into"], ["to_string"], ["to_owned"], ["into", "into"]):
+                return ("named", pidx[peel(b_)["id"]])
+        if e.get("k") == "field" and peel(e["e"]).get("k") == "local" and peel(e["e"])["id"] in binds and binds[peel(e["e"])["id"]] == ("bound", "<array type>"):
+            return ("bound", e["name"])
+        return ("?", show(e)[:40])
+
+    def node_of(e, pidx, defs, binds):
+        """(variant, {field: src}) of a symbol node expression, or a delegation ("symbol", name src, type value)"""
+        e = peel(e)
+        if e.get("k") == "struct" and e["path"].startswith(NODES + "Expr::"):
+            return (e["path"].split("::")[-1], {x["name"]: src(x["e"], pidx, defs, binds) for x in e["fields"]})
+        return None
+
+    def type_value(e, pidx, defs, binds):
+        """("BV", width src) | ("Array", iw src, dw src) for a Type constructed in place"""
+        e = peel(e)
+        if e.get("k") == "local":
+            init = simple_let_init(defs, e["id"])
+            if init is not None:
+                return type_value(init, pidx, defs, binds)
+        if e.get("k") == "ctor" and callee(e).endswith("Type::BV") and len(e["args"]) == 1:
+            return ("BV", src(e["args"][0], pidx, defs, binds))
+        if e.get("k") == "ctor" and callee(e).endswith("Type::Array") and len(e["args"]) == 1:
+            a = peel(e["args"][0])
+            if a.get("k") == "local":
+                init = simple_let_init(defs, a["id"])
+                a = peel(init) if init is not None else a
+            if a.get("k") == "struct" and a["path"].endswith("ArrayType"):
+                fs = {x["name"]: src(x["e"], pidx, defs, binds) for x in a["fields"]}
+                return ("Array", fs.get("index_width"), fs.get("data_width"))
+        return None
+    # Expr::symbol(name, tpe): one arm per kind of type, widths matched by field name
+    g = (c.fns.get(NODES + "Expr::symbol") or [None])[0]
+    sym_ok = False
+    if g is not None:
+        gp = pidx_of(g)
+        gdefs = local_defs(g)
+        ms = [n for n in walk(g["body"]) if n.get("k") == "match" and peel(n["scrut"]).get("k") == "local" and gp.get(peel(n["scrut"])["id"]) == 1]
+        got = {}
+        for arm in (ms[0]["arms"] if len(ms) == 1 else []):
+            pt = arm["pat"]
+            while pt.get("k") in ("pref", "pderef"):
+                pt = pt["pat"]
+            binds = {}
+            if pt.get("k") == "pvariant" and pt["path"].endswith("Type::BV") and len(pt["subs"]) == 1:
+                for _, i_ in pat_bindings(pt["subs"][0]):
+                    binds[i_] = ("bound", "width")
+            elif pt.get("k") == "pvariant" and pt["path"].endswith("Type::Array") and len(pt["subs"]) == 1:
+                sp = pt["subs"][0]
+                while sp.get("k") in ("pref", "pderef"):
+                    sp = sp["pat"]
+                if sp.get("k") == "pstruct":
+                    for fl_ in sp["fields"]:
+                        for _, i_ in pat_bindings(fl_["pat"]):
+                            binds[i_] = ("bound", fl_["name"])
+                else:
+                    for _, i_ in pat_bindings(sp):
+                        binds[i_] = ("bound", "<array type>")
+            nd = node_of(norm_.tail_value(arm["body"]), gp, gdefs, binds)
+            if nd:
+                got[nd[0]] = nd[1]
+        sym_ok = got.get("BVSymbol") == {"name": ("param", 0), "width": ("bound", "width")} and \
+            got.get("ArraySymbol") == {"name": ("param", 0), "index_width": ("bound", "index_width"), "data_width": ("bound", "data_width")}
+        ctx.inst(rule, "builder:Expr::symbol", sym_ok, g["span"], "Expr::symbol must build BVSymbol{name, width} for Type::BV(width) and ArraySymbol{name, index_width, data_width} from the like-named fields of the array type: %s" % got,
+                 sample=str(got))
+    for name, want_direct, want_type in (
+            ("bv_symbol", ("BVSymbol", {"name": ("named", 0), "width": ("param", 1)}), ("BV", ("param", 1))),
+            ("array_symbol", ("ArraySymbol", {"name": ("named", 0), "index_width": ("param", 1), "data_width": ("param", 2)}), ("Array", ("param", 1), ("param", 2))),
+            ("symbol", None, None)):
+        fl = c.fns.get(CTX + "::" + name)
+        if not fl:
+            ctx.inst(rule, "builder:%s:missing" % name, False, None, "builder Context::%s not found (renamed or removed)" % name, nontrivial=False)
+            continue
+        f = fl[0]
+        pidx = pidx_of(f)
+        defs = local_defs(f)
+        ok = False
+        got = None
+        res = norm_.tail_value(stmts_of(f["body"])[-1]) if stmts_of(f["body"]) else {}
+        res = peel(res)
+        if res.get("k") == "mcall" and callee(res) == ADD_EXPR and len(res["args"]) == 1:
+            a = peel(res["args"][0])
+            if a.get("k") == "local":
+                init = simple_let_init(defs, a["id"])
+                a = peel(init) if init is not None else a
+            nd = node_of(a, pidx, defs, {})
+            if nd is not None:
+                got = nd
+                ok = want_direct is not None and nd == want_direct
+            elif a.get("k") == "call" and callee(a) == NODES + "Expr::symbol" and len(a["args"]) == 2:
+                tv = type_value(a["args"][1], pidx, defs, {})
+                ns = src(a["args"][0], pidx, defs, {})
+                got = ("Expr::symbol", ns, tv if tv is not None else src(a["args"][1], pidx, defs, {}))
+                ok = sym_ok and ((name == "symbol" and got == ("Expr::symbol", ("param", 0), ("param", 1))) or (want_type is not None and ns == ("named", 0) and tv == want_type))
+        elif res.get("k") == "mcall" and callee(res) == CTX + "::symbol" and len(res["args"]) == 2 and name != "symbol":
+            tv = type_value(res["args"][1], pidx, defs, {})
+            ns = src(res["args"][0], pidx, defs, {})
+            got = ("Context::symbol", ns, tv)
+            ok = ns == ("named", 0) and tv == want_type
+        ctx.inst(rule, "builder:%s" % name, ok, f["span"],
+                 "Context::%s must create the symbol with the name and the widths it was given, index and data width in their own fields: builds %s" % (name, got), sample=str(got))
+
+
 def check_t2(ctx, t0, rule="T2"):
     """returns {builder: row}; records contract violations under `rule`"""
     c = ctx.facts.lib("patronus")
@@ -245,6 +376,7 @@ def check_t2(ctx, t0, rule="T2"):
         b = {"cond": (norm_.path_conditions(ix, returns_operand[0]) or [({}, True)])[0][0]} if returns_operand else {}
         ctx.inst(rule, "builder:%s:normalises" % name, ok, f["span"], "Context::%s must return its operand unchanged exactly in the trivial case (%s) and build the node otherwise: `%s`" % (name, "full-range slice" if shape == "full" else "extension by 0", show(b.get("cond", {}))[:100]))
     ctx.floor(rule, "add_expr sites in contracted builders", n_sites, 32)
+    symbol_builders(ctx, c, rule)
     # Builder wrappers forward to the same-named Context builder with the same argument order
     n_w = 0
     for path, fl in c.fns.items():
